@@ -2,6 +2,8 @@ import Prism.Proofs.C09
 import Prism.Proofs.C09Alloc
 import Prism.Proofs.C09AllocPng
 import Prism.Proofs.C09Cost
+import Prism.Proofs.C09Desc
+import Prism.Proofs.C09Fuel
 
 #print axioms Prism.C09_consumed_le
 #print axioms Prism.C09_alloc_lazy
@@ -22,3 +24,7 @@ import Prism.Proofs.C09Cost
 #print axioms Prism.C09_jpeg_alloc
 #print axioms Prism.C09_webp_alloc
 #print axioms Prism.C09_icc_alloc
+#print axioms Prism.Icc.C09_description_bounded
+#print axioms Prism.C09_png_fuel_suffices
+#print axioms Prism.C09_jpeg_fuel_suffices
+#print axioms Prism.C09_driver_fuel_suffices
